@@ -118,8 +118,8 @@ class Gen(object):
                 inputs.append(spec)
             fs = {'name': name, 'kind': kind, 'multi': multi, 'seq': rng.randrange(4),
                   'inputs': inputs, 'required': [], 'optional': []}
-            if kind == 'form' and rng.chance(0.35):
-                en = rng.pick(['E1', 'E2'])
+            if kind == 'form' and rng.chance(0.5):
+                en = rng.pick(['E1', 'E1', 'E2'])
                 mem = list(ENUMS[en])
                 fs['thresholds'] = {'flat': rng.pick([1500.0, 300, 0.1]),
                                     'by_status': {'enum': en, 'table': ([[mem[:2], rng.pick([600.0, 12950.0])]] +
@@ -270,6 +270,11 @@ class Gen(object):
                     return ['ln', self._ref(fs, l['name'])]
             return ['const', rng.pick([0, 1, 2.5, 100.0, 0.005, 1500])]
         c = rng.random()
+        if self.cur_form.get('thresholds') and rng.chance(0.15):
+            # a form that has threshold tables uses them
+            if rng.chance(0.3):
+                return ['thr', 'flat', None]
+            return ['thr', 'by_status', self._enum(self.cur_form['thresholds']['by_status']['enum'], d - 1)]
         if c < 0.06:
             fn = self._fault_node('num')
             if fn is not None:
